@@ -706,6 +706,7 @@ func runC09(r *Run) {
 	}
 	c09Huge(r)
 	c09TwoEncoders(r)
+	c09FileWriterDirect(r, false)
 	seen := map[string]bool{}
 	for _, h := range hs {
 		k := h.key()
@@ -946,6 +947,7 @@ func runC16(r *Run) {
 	c16Probe(r)
 	c16Constructor(r)
 	c16Buffered(r)
+	c09FileWriterDirect(r, true)
 }
 
 // c16Buffered: the writer handed to the encoder is itself a buffering writer with a Flush
